@@ -92,4 +92,113 @@ example : itemsOK sampleItems = true ∧ tailOK 0 sampleItems = true ∧ safeAdj
 theorem unsafe_example : safeAdjacent [.ch 97, .comment [], .ch 98] = false ∧
     tokensOf [.ch 97, .ch 98] ≠ tokensOf [.ch 97, .comment [], .ch 98] := by decide
 
+/-- The parse of a byte string into items is unique, so `tokensOf` is a function of the bytes and
+    `rw_tokens` says: tokens (removeWhitespace s) = tokens s. -/
+theorem parse_unique (s : List Nat) (a b : List Item) (ha : Parse s a) (hb : Parse s b) : a = b := by
+  obtain ⟨ha1, ha2⟩ := ha
+  obtain ⟨hb1, hb2⟩ := hb
+  simp only [itemsOK, Bool.and_eq_true, noSlashStar] at ha1 hb1
+  exact parse_unique_aux a b false ha1.1 hb1.1 ha1.2 hb1.2 (by rw [ha2, hb2])
+
+/-! ## Identifier shortening -/
+open GV.Names GV.Proofs.Names
+
+/-- the short-name generator is bijective base 26: reading the name back gives the index (+1) -/
+theorem shortChars_decode (off j : Nat) : decodeShort off (shortChars off j []) = j + 1 :=
+  decode_shortChars off j
+
+/-- `shortnames_inj`: the i-th candidate names are pairwise distinct (also past 26 and 702 names). -/
+theorem shortnames_inj (pkgLevel : Bool) (i j : Nat) (h : shortName pkgLevel i = shortName pkgLevel j) : i = j :=
+  shortName_inj' pkgLevel i j h
+
+/-- local names consist of lower-case letters only, package-level names of upper-case letters only -/
+theorem shortName_class (pkgLevel : Bool) (i : Nat) :
+    ∀ c ∈ shortName pkgLevel i, (if pkgLevel then 65 else 97) ≤ c ∧ c < (if pkgLevel then 65 else 97) + 26 := by
+  intro c hc
+  have := shortChars_class (if pkgLevel then 65 else 97) i [] c hc
+  simpa using this
+
+theorem shortName_ne_nil (pkgLevel : Bool) (i : Nat) : shortName pkgLevel i ≠ [] := by
+  intro h
+  have := decode_shortChars (if pkgLevel then 65 else 97) i
+  unfold shortName at h
+  rw [h] at this
+  simp [decodeShort] at this
+
+/-- package-level (upper-case) and local (lower-case) short names never clash -/
+theorem pkg_local_disjoint (i j : Nat) : shortName true i ≠ shortName false j := by
+  intro h
+  cases hl : shortName true i with
+  | nil => exact shortName_ne_nil true i hl
+  | cons c r =>
+    have h1 := shortName_class true i c (by rw [hl]; simp)
+    have h2 := shortName_class false j c (by rw [← h, hl]; simp)
+    simp at h1 h2
+    omega
+
+/-- `short_not_reserved`, static part: every reserved word starts with a lower-case letter, so no package-level short
+    name is reserved (the lower-case ones that are — `do`, `if`, `in`, `for`, `int`, … — are handled dynamically, by the
+    seeding of the root context: see `names_distinct`). -/
+theorem short_not_reserved (i : Nat) : shortName true i ∉ reserved := by
+  intro h
+  have hall : reserved.all (fun w => match w with | c :: _ => decide (97 ≤ c) | [] => false) = true := by decide
+  have hw := List.all_eq_true.mp hall _ h
+  cases hs : shortName true i with
+  | nil => exact shortName_ne_nil true i hs
+  | cons c r =>
+    rw [hs] at hw
+    have := shortName_class true i c (by rw [hs]; simp)
+    simp at this hw
+    omega
+
+/-- the seeding is needed: the 119th local candidate is the reserved word `do` -/
+theorem do_is_a_candidate : shortName false 118 = [100, 111] ∧ [100, 111] ∈ reserved := by
+  constructor
+  · unfold shortName
+    rw [shortChars.eq_def]; simp
+    rw [shortChars.eq_def]; simp
+  · decide
+
+/-- `names_distinct` [INV]: for EVERY history of nested function contexts (push / pop / allocate in the innermost
+    context — any scope tree, any number of names, local or package level), with minification on, at every moment the
+    JavaScript names in scope (all package-level names and the locals of all enclosing functions) are pairwise
+    distinct, none is a reserved word, package-level names are upper-case and locals lower-case (so they never clash). -/
+theorem names_distinct (ops : List Op) (st : NState) (h : runOps true initState ops = some st) :
+    (visible st).Nodup ∧ (∀ n ∈ visible st, n ∉ reserved) ∧
+    (∀ n ∈ st.pkgNames, isUpper n) ∧ (∀ n ∈ chainLocals st.chain, isLower n) := by
+  have hi := inv_run ops initState st inv_init h
+  exact ⟨hi.nodup, hi.notres, hi.pkgUpper, hi.locLower⟩
+
+/-- a name handed out is new: it is not in scope before the allocation (so earlier names stay what they were) -/
+theorem names_fresh (ops : List Op) (st : NState) (name : Name) (pk : Bool) (c : List Scope) (nm : Name)
+    (h : runOps true initState ops = some st) (ha : newVariable true name pk st.chain = some (c, nm)) :
+    nm ∉ visible st :=
+  (inv_req (inv_run ops initState st inv_init h) ha).2
+
+/-- the hypothesis is satisfiable: a non-empty history runs (the first local of the package context gets the name `a`) -/
+example : ∃ st, runOps true initState [.req [120] false] = some st ∧ visible st = [[97]] := by
+  obtain ⟨c, hc⟩ := first_local
+  have hv := newVariable_min hc
+  refine ⟨{ chain := c, pkgNames := [] }, ?_, ?_⟩
+  · simp [runOps, stepOp, initState, hc]
+  · simp [visible, hv.2.2, chainLocals, rootScope]
+
+/-- The candidate search always finds a free name among the first `size + 1` candidates (pigeonhole over the
+    injective `shortName`), so the unbounded Go loop terminates and the model's fuel is never exhausted. -/
+theorem firstFree_total (pk : Bool) (m : VarMap) : ∃ nm, firstFree pk m (m.size + 1) 0 = some nm :=
+  firstFree_total' pk m
+
+/-- with minification on, an allocation fails only for the empty name (the Go code panics on it) -/
+theorem newVariable_total (name : Name) (pk : Bool) (fc : Scope) (parents : List Scope) (h : name ≠ []) :
+    ∃ r, newVariable true name pk (fc :: parents) = some r := by
+  obtain ⟨nm, hnm⟩ := firstFree_total pk fc.vars
+  rw [newVariable]
+  simp only [h, if_false, if_true, hnm]
+  cases pk <;> simp
+
+/-- Not claimed: the corresponding statement with minification off (`name`, `name$1`, …) needs a side condition on the
+    requested names (no Go identifier encodes to another one followed by `$<digits>`); it belongs to C01. -/
+def names_distinct_plain : Prop :=
+  ∀ (ops : List Op) (st : NState), runOps false initState ops = some st → (visible st).Nodup
+
 end GV.Props.C16
